@@ -124,6 +124,9 @@ def handle1 (op : String) (args : List String) : Option (String × String) :=
   | "i.set_one", [x] => do
     let x ← parseBigInt x
     pure (okI (BigInt.setOne x), oI 1)
+  -- api-coverage: inherent `BigUint::ZERO` / `BigInt::ZERO`
+  | "u.inherent_zero", [] => pure (okU BigUint.zero, oU 0)
+  | "i.inherent_zero", [] => pure (okI BigInt.zero, oI 0)
   | "sign.neg", [s] => do
     let s ← parseSignS s
     pure (showSign s.neg, showSign (signOfInt (- Sign.toInt s)))
